@@ -90,6 +90,7 @@ def generate(streams, tier):
             "h": (pool.get(vr, min_len=2, max_len=2) + "xx")[:2],
             "s1": pool.get(vr), "a": pool.get(vr, min_len=3, max_len=3) if True else "", "b": gen_int_in_range(vr, "short"),
             "s2": pool.get(vr), "k": gen_int_in_range(vr, "three"), "s3": pool.get(vr, allow_tilde=False),
+            "kind": rng.choice([1, 1, 2]), "note": pool.get(vr),
             "skip": [rng.random() < 0.3 for _ in range(6)], "extra": [rng.random() < 0.3 for _ in range(6)],
         }
         plan["generated"]["a"] = (plan["generated"]["a"] + "abc")[:3]
@@ -150,6 +151,13 @@ def c06_tree():
             <break/>
             <field name="s2" type="string"/>
             <break/>
+            <field name="kind" type="char"/>
+            <switch field="kind">
+                <case value="1">
+                    <field name="note" type="string"/>
+                </case>
+            </switch>
+            <break/>
             <field name="k" type="three"/>
             <field name="s3" type="encoded_string"/>
         </chunked>
@@ -188,7 +196,10 @@ def run_generated(plan, env, res, tr, fail):
     srv = importlib.import_module("eolib.protocol._generated.net.server")
     inner_cls = getattr(net, g["variant"])
     pkt_cls = srv.TalkTellServerPacket if g["variant"] == "InnerChunked" else srv.TalkReportServerPacket
-    pkt = pkt_cls(h=g["h"], s1=g["s1"], inner=inner_cls(a=g["a"], b=g["b"]), s2=g["s2"], k=g["k"], s3=g["s3"])
+    kind = g.get("kind", 2)
+    case = getattr(pkt_cls, "KindData1")(note=g.get("note", "")) if kind == 1 else None
+    pkt = pkt_cls(h=g["h"], s1=g["s1"], inner=inner_cls(a=g["a"], b=g["b"]), s2=g["s2"], kind=kind, kind_data=case,
+                  k=g["k"], s3=g["s3"])
     w = EoWriter()
     pkt.write(w)
     out = bytes(w.to_bytearray())
@@ -196,10 +207,11 @@ def run_generated(plan, env, res, tr, fail):
     res.count("probe.generated_serializer_session")
     hb = g["h"].encode("cp1252", "replace")
     body = out[len(hb):]
+    kchunk = [("char", kind)] + ([("s", g.get("note", ""))] if kind == 1 else [])
     if g["variant"] == "InnerChunked":
-        chunks = [[("s", g["s1"])], [("s", g["a"])], [("short", g["b"])], [("s", g["s2"])], [("three", g["k"]), ("e", g["s3"])]]
+        chunks = [[("s", g["s1"])], [("s", g["a"])], [("short", g["b"])], [("s", g["s2"])], kchunk, [("three", g["k"]), ("e", g["s3"])]]
     else:
-        chunks = [[("s", g["s1"])], [("f3", g["a"]), ("short", g["b"])], [("s", g["s2"])], [("three", g["k"]), ("e", g["s3"])]]
+        chunks = [[("s", g["s1"])], [("f3", g["a"]), ("short", g["b"])], [("s", g["s2"])], kchunk, [("three", g["k"]), ("e", g["s3"])]]
     if body.count(0xFF) != len(chunks) - 1:
         return fail("break-in-payload", "generated-serializer",
                     f"{pkt_cls.__name__} wrote {body.count(0xFF)} break bytes after the header for {len(chunks)} chunks: "
